@@ -32,6 +32,54 @@ def with_watchdog(fn, seconds, *a, **kw):
         signal.signal(signal.SIGALRM, old)
 
 
+def run_isolated(fn, seconds, *a, **kw):
+    """Run fn in a forked child and kill it hard after `seconds` (SIGALRM cannot interrupt a regular-expression match or any
+    other long C call).  Returns fn's (picklable) result; raises Timeout, or the child's exception text as RuntimeError."""
+    import pickle
+    import select
+    import time
+    r, w = os.pipe()
+    pid = os.fork()
+    if pid == 0:                                    # child
+        os.close(r)
+        try:
+            try:
+                payload = ("ok", fn(*a, **kw))
+            except BaseException as ex:  # noqa: BLE001
+                payload = ("err", f"{type(ex).__name__}: {ex}")
+            with os.fdopen(w, "wb") as f:
+                pickle.dump(payload, f)
+        finally:
+            os._exit(0)
+    os.close(w)
+    deadline = time.time() + seconds
+    chunks = []
+    try:
+        while True:
+            left = deadline - time.time()
+            if left <= 0:
+                os.kill(pid, signal.SIGKILL)
+                raise Timeout()
+            ready, _, _ = select.select([r], [], [], min(left, 1.0))
+            if ready:
+                b = os.read(r, 1 << 20)
+                if not b:
+                    break
+                chunks.append(b)
+    finally:
+        os.close(r)
+        try:
+            os.waitpid(pid, 0)
+        except ChildProcessError:
+            pass
+    if not chunks:
+        raise RuntimeError("isolated run died without a result")
+    kind, val = pickle.loads(b"".join(chunks))
+    if kind == "err":
+        raise RuntimeError(val)
+    return val
+
+
 def pmap(fn, items, workers=None, chunksize=None):
     items = list(items)
     if not items:
